@@ -54,6 +54,113 @@ pub fn handle(cmd: &str, args: &[Sexp]) -> Result<String, String> {
             };
             Ok(show(call.exec(), cmd == "call-t"))
         }
-        _ => crate::plug::handle(cmd, args),
+        _ => match handle2(cmd, args) {
+            Some(r) => r,
+            None => crate::plug::handle(cmd, args),
+        },
     }
+}
+
+// ---------------- embedding API (C17), determinism helpers, threads (C16) ----------------
+pub fn vars_to_string(interp: &Interpreter, names: &[String]) -> String {
+    let mut ids = Ids::new();
+    let mut out = Vec::new();
+    for n in names {
+        match interp.get_variable(n) {
+            Some(v) => out.push(format!("({} {})", n, val_to_string(v, false, &mut ids, 0))),
+            None => out.push(format!("({} unbound)", n)),
+        }
+    }
+    format!("({})", out.join(" "))
+}
+
+pub fn handle2(cmd: &str, args: &[Sexp]) -> Option<Result<String, String>> {
+    use Sexp::*;
+    let strs = |a: &[Sexp]| -> Result<Vec<String>, String> {
+        a.iter().map(|s| match s { S(x) => Ok(x.clone()), A(x) => Ok(x.clone()), _ => Err("string expected".to_string()) }).collect()
+    };
+    Some((|| -> Result<String, String> {
+        match cmd {
+            // (repl (names..) "stmt" "stmt" ..): one interpreter, parse + exec_unscoped per input (as the REPL does)
+            "repl" => {
+                let L(names) = &args[0] else { return Err("names".into()) };
+                let names = strs(names)?;
+                let inputs = strs(&args[1..])?;
+                let mut interp = Interpreter::with_stdlib();
+                let mut out = Vec::new();
+                for inp in inputs {
+                    let r = match Code::parse(&interp, &inp) {
+                        Err(e) => format!("reject {}", variant_name(&e)),
+                        Ok(code) => show(code.exec_unscoped(&mut interp), false),
+                    };
+                    out.push(format!("[{} {}]", r, vars_to_string(&interp, &names)));
+                }
+                Ok(out.join(" "))
+            }
+            // (batch (names..) "program"): parse whole, exec_unscoped on a fresh interpreter
+            "batch" => {
+                let L(names) = &args[0] else { return Err("names".into()) };
+                let names = strs(names)?;
+                let S(p) = &args[1] else { return Err("program".into()) };
+                let parse_interp = Interpreter::with_stdlib();
+                let code = match Code::parse(&parse_interp, p) {
+                    Ok(c) => c,
+                    Err(e) => return Ok(format!("reject {}", variant_name(&e))),
+                };
+                let mut interp = Interpreter::with_stdlib();
+                let r = show(code.exec_unscoped(&mut interp), false);
+                Ok(format!("[{} {}]", r, vars_to_string(&interp, &names)))
+            }
+            // (exec-twice "program"): exec is repeatable and does not touch the parse interpreter
+            "exec-twice" => {
+                let S(p) = &args[0] else { return Err("program".into()) };
+                let mut parse_interp = Interpreter::with_stdlib();
+                parse_interp.insert("probe".into(), Variable::Int(41));
+                let code = match Code::parse(&parse_interp, p) {
+                    Ok(c) => c,
+                    Err(e) => return Ok(format!("reject {}", variant_name(&e))),
+                };
+                let a = show(code.exec(), false);
+                let b = show(code.exec(), false);
+                let probe_ok = matches!(parse_interp.get_variable("probe"), Some(Variable::Int(41)));
+                let leaked = parse_interp.get_variable("leak").is_some();
+                Ok(format!("{} || {} || probe={} leaked={}", a, b, probe_ok, leaked))
+            }
+            // (threads T K "program yielding (f, cell..)"): call f from T threads K times each
+            "threads" => {
+                let (A(t), A(k), S(p)) = (&args[0], &args[1], &args[2]) else { return Err("threads args".into()) };
+                let t: usize = t.parse().map_err(|_| "T")?;
+                let k: usize = k.parse().map_err(|_| "K")?;
+                let code = match parse(p, true) { Ok(c) => c, Err(e) => return Ok(e) };
+                let v = match code.exec() { Ok(v) => v, Err(e) => return Ok(format!("err {}", variant_name(&e))) };
+                let Variable::Tuple(parts) = &v else { return Err("program must yield (f, observed..)".into()) };
+                let Variable::Function(f) = &parts[0] else { return Err("first component must be a function".into()) };
+                let mut handles = Vec::new();
+                for ti in 0..t {
+                    let f = f.clone();
+                    handles.push(std::thread::spawn(move || {
+                        let mut outs = Vec::new();
+                        for _ in 0..k {
+                            let call = f.clone().create_call(vec![Variable::Int(ti as i64)]);
+                            let r = match call { Ok(c) => show(c.exec(), false), Err(e) => format!("reject {}", variant_name(&e)) };
+                            outs.push(r);
+                        }
+                        outs
+                    }));
+                }
+                let mut per_thread = Vec::new();
+                for h in handles {
+                    match h.join() {
+                        Ok(o) => per_thread.push(format!("({})", o.last().cloned().unwrap_or_default())),
+                        Err(_) => per_thread.push("(!panic)".into()),
+                    }
+                }
+                let mut ids = Ids::new();
+                let observed: Vec<String> = parts[1..].iter().map(|x| val_to_string(x, false, &mut ids, 0)).collect();
+                Ok(format!("threads {} || observed {}", per_thread.join(" "), observed.join(" ")))
+            }
+            _ => Err("\u{0}nocmd".into()),
+        }
+    })())
+    .and_then(|r| match r { Err(e) if e == "\u{0}nocmd" => None, other => Some(other) })
 }
